@@ -620,20 +620,30 @@ func runRace(j *sup.Job, res *sup.Result, rr *sup.RunResult, re *process.Runtime
 func modeTable(seed uint64) *sup.ModeTable {
 	ms := []types.Modality{types.NewReplicableMode(), types.NewMulticastMode(), types.NewAffineMode(), types.NewLinearMode()}
 	t := &sup.ModeTable{Spell: map[string]string{}, SpellAll: map[string][]string{}, TablesStable: true}
+	// the questions of one table are asked in a seeded order (pairs and, within a pair, the
+	// three relations): an answer that depends on which question came first shows either as a
+	// table that differs from an earlier one or as a table that differs from another job's
+	qr := rand.New(rand.NewSource(int64(seed) ^ 0x5eed))
 	tables := func() (names []string, weaken, contract []bool, down, up, eq [][]bool) {
+		n := len(ms)
 		for _, m := range ms {
 			names = append(names, m.String())
 			weaken = append(weaken, m.AllowsWeakening())
 			contract = append(contract, m.AllowsContraction())
-			var d, u, e []bool
-			for _, k := range ms {
-				d = append(d, m.CanBeDownshiftedTo(k))
-				u = append(u, m.CanBeUpshiftedTo(k))
-				e = append(e, m.Equals(k))
+			down = append(down, make([]bool, n))
+			up = append(up, make([]bool, n))
+			eq = append(eq, make([]bool, n))
+		}
+		for _, q := range qr.Perm(n * n * 3) {
+			i, k, rel := q/3/n, q/3%n, q%3
+			switch rel {
+			case 0:
+				down[i][k] = ms[i].CanBeDownshiftedTo(ms[k])
+			case 1:
+				up[i][k] = ms[i].CanBeUpshiftedTo(ms[k])
+			default:
+				eq[i][k] = ms[i].Equals(ms[k])
 			}
-			down = append(down, d)
-			up = append(up, u)
-			eq = append(eq, e)
 		}
 		return
 	}
